@@ -144,7 +144,7 @@ def shard(ctx, acc):
     acc.add_extra('finite_cases', n_fin)
 
     # (ii) random sequences
-    total = 6000 if ctx.quick else 160000
+    total = 6000 if ctx.quick else 500000
     strat = gen_lex.top(max_items=6, max_leaves=30)
 
     def body(doc):
